@@ -16,10 +16,11 @@ import (
 // C12 — predicate fast paths decide exactly as the general evaluator.
 //
 // ops (see lean/Driver/C12.lean):
-//   eval  <text> <ast> ; <row>   predicate text + the predicate expr-lang parses it to
-//   evalx <text> ; <row>         predicate whose general meaning the model does not know
-//   shape <text>                 recogniser only, arbitrary bytes
-//   sql   <ast> ; <row>          the predicate in a WHERE clause, through EmitSync
+//
+//	eval  <text> <ast> ; <row>   predicate text + the predicate expr-lang parses it to
+//	evalx <text> ; <row>         predicate whose general meaning the model does not know
+//	shape <text>                 recogniser only, arbitrary bytes
+//	sql   <ast> ; <row>          the predicate in a WHERE clause, through EmitSync
 type c12 struct{}
 
 func init() { registry["C12"] = c12{} }
